@@ -92,8 +92,7 @@ def main():
         "not_applicable": na,
         "notes": "See DESIGN.md. KNOWN_FINDINGS.txt lists repaired defects (fixed:) and open findings (finding:).",
     }
-    if not na:
-        manifest.pop("not_applicable")
+    # kept even when empty: every property is claimed, nothing is declared not applicable
     with open(os.path.join(ROOT, "MANIFEST.json"), "w") as fh:
         json.dump(manifest, fh, indent=1)
     print(f"claimed {len(checks)}, not claimed {len(na)}")
